@@ -49,9 +49,9 @@ private:
 				}
 			}
 			// break ties by using hash value
-			name_and_source_id_hasher_t hasher;
-			std::size_t hash1 = hasher(name_and_source_id_t(r1->getName(), r1->getSourceID()));
-			std::size_t hash2 = hasher(name_and_source_id_t(r2->getName(), r2->getSourceID()));
+			// (of name and source id only, so that the order of the reads stays what it was)
+			std::size_t hash1 = (std::hash<std::string>()(r1->getName())) ^ (std::hash<int>()(r1->getSourceID()));
+			std::size_t hash2 = (std::hash<std::string>()(r2->getName())) ^ (std::hash<int>()(r2->getSourceID()));
 			if (hash1 != hash2) {
 				return hash1 < hash2;
 			}
@@ -61,22 +61,28 @@ private:
 			if (name_cmp != 0) {
 				return name_cmp < 0;
 			}
-			return r1->getSourceID() < r2->getSourceID();
+			if (r1->getSourceID() != r2->getSourceID()) {
+				return r1->getSourceID() < r2->getSourceID();
+			}
+			return r1->getSampleID() < r2->getSampleID();
 		}
 	} read_comparator_t;
 
+	// Read names are unique within one sample of one source (input file) only: a file that
+	// holds several samples may use the same name for reads of different samples.
 	typedef struct name_and_source_id_t {
-		name_and_source_id_t(std::string name, int source_id) : name(name), source_id(source_id) {}
+		name_and_source_id_t(std::string name, int source_id, int sample_id) : name(name), source_id(source_id), sample_id(sample_id) {}
 		bool operator==(const name_and_source_id_t& other) const {
-			return (name.compare(other.name) == 0) && (source_id == other.source_id);
+			return (name.compare(other.name) == 0) && (source_id == other.source_id) && (sample_id == other.sample_id);
 		}
 		std::string name;
 		int source_id;
+		int sample_id;
 	} name_and_source_id_t;
 
 	typedef struct name_and_source_id_hasher_t {
 		std::size_t operator()(const name_and_source_id_t& x) const {
-			return (std::hash<std::string>()(x.name)) ^ (std::hash<int>()(x.source_id));
+			return (std::hash<std::string>()(x.name)) ^ (std::hash<int>()(x.source_id)) ^ (std::hash<int>()(x.sample_id) << 8);
 		}
 	} name_and_source_id_hasher_t;
 
